@@ -133,21 +133,27 @@ class OvertakePolicy:
     "request B arrives and is served entirely while request A sits between two of its lines"."""
     kind = "overtake"
 
-    def __init__(self, k, to):
-        self.k = k
-        self.to = to
-        self.demoted = None
+    def __init__(self, k=None, to=None, stages=None):
+        # stages: [[k1, to1], [k2, to2], ...] - several overtakings in a row (the target of a later stage may be a task
+        # that was demoted earlier: "A is overtaken by B, B is interrupted and A finishes, then C arrives while B is
+        # still in progress")
+        self.stages = [list(x) for x in (stages if stages is not None else [[k, to]])]
+        self.next = 0
+        self.demoted = []
 
     def at_line(self, k, cur, others):
-        if k == self.k and self.demoted is None:
+        if self.next < len(self.stages) and k == self.stages[self.next][0]:
+            to = self.stages[self.next][1]
+            self.next += 1
             for t in others:
-                if t.tid == self.to:
-                    self.demoted = cur.tid
+                if t.tid == to:
+                    if cur.tid not in self.demoted:
+                        self.demoted.append(cur.tid)
                     return t
         return None
 
     def at_block(self, k, runnable):
-        pref = [t for t in runnable if t.tid != self.demoted]
+        pref = [t for t in runnable if t.tid not in self.demoted]
         return (pref or runnable)[-1]
 
 
@@ -161,7 +167,7 @@ def make_policy(spec, rng_factory=None):
     if kind == "replay":
         return ReplayPolicy(spec.get("preemptions", []))
     if kind == "overtake":
-        return OvertakePolicy(spec["k"], spec["to"])
+        return OvertakePolicy(spec.get("k"), spec.get("to"), spec.get("stages"))
     if kind == "random":
         return RandomPolicy(random.Random(spec["seed"]), spec.get("p", 0.05))
     if kind == "pct":
